@@ -1,1 +1,110 @@
-//! (module to be written)
+//! Box language (C18): value boundary sets, lexeme alphabets and the few expectations that are not the
+//! identity. The oracle of C18 is "print then parse gives the list back", so there is no model of the
+//! language here; what lives here is everything the enumerators and the known-finding predicate need
+//! that must not come from the repository.
+
+/// Scaled values at the boundaries of the print/parse code: zero, one unit in the last place, the
+/// half point (a one-digit fraction), whole points, the largest legal dimension (TeX §421: 2^30-1 sp =
+/// 16383.99998pt) and a value with a five-digit fraction.
+pub const SCALED: [i32; 11] = [0, 1, -1, 32768, -32768, 65536, 655360, (1 << 30) - 1, -((1 << 30) - 1), 12345678, -7];
+/// A short sub-menu for nested positions.
+pub const SCALED_SHORT: [i32; 4] = [0, -1, 32768, (1 << 30) - 1];
+/// i32 contents that are not legal TeX dimensions (|x| >= 2^30). i32::MIN is excluded where it is the
+/// sentinel for a running rule dimension.
+pub const SCALED_BEYOND: [i32; 5] = [1 << 30, -(1 << 30), i32::MAX, i32::MIN + 1, i32::MIN];
+
+pub const PENALTIES: [i32; 9] = [0, 1, -1, 10000, -10000, 10001, i32::MAX, i32::MIN + 1, i32::MIN];
+
+/// Characters: ASCII letter, space, the escape character, control characters with and without a short
+/// escape, the characters of the language's own syntax, non-ASCII, a combining mark (printed as \u{..}
+/// by Rust's escape_debug), a non-ASCII white space, the ends of the scalar range. No double quote:
+/// the property excludes it.
+pub const CHARS: [char; 22] = ['a', 'Z', ' ', '\\', '\n', '\t', '\r', '\0', '\u{1}', '\u{7f}', '\'', '#', '(', ']', ',', '=', 'é', '\u{301}', '\u{a0}', '\u{2028}', '\u{d7ff}', '\u{10ffff}'];
+pub const CHARS_SHORT: [char; 5] = ['a', '\\', '\n', 'é', '\u{10ffff}'];
+
+pub const FONTS: [u32; 5] = [0, 1, 255, i32::MAX as u32, u32::MAX];
+
+/// Glue ratios as (numerator, denominator) pairs of scaled numbers.
+pub const RATIOS: [(i32, i32); 18] = [
+    (0, 1), (1, 1), (65536, 65536), (1, 3), (-5, 7), (98304, 65536), (16383, 1), (1073741760, 65536), (1073741823, 65536), (16384, 1), (-16384, 1),
+    (1114144768, 65536), (1234567890, 65537), (i32::MAX, 109225), (19999, 1), (20000, 1), (1 << 30, 1), (i32::MAX, 1),
+];
+
+/// The quotient the way the subject is documented to form it (TeX §186 prints a `real`): IEEE single
+/// precision division of the two integers converted to single precision.
+pub fn glue_ratio_f32(num: i32, den: i32) -> f32 {
+    (num as f32) / (den as f32)
+}
+
+/// D20 predicate on the *case*: the box's glue ratio is at least 16384 in absolute value, so its
+/// text (clamped to 20000.0 as in TeX §186) is not a legal dimension and the reader, which reads the
+/// ratio with the dimension scanner, cannot accept it.
+pub fn d20_applies(num: i32, den: i32) -> bool {
+    let g = glue_ratio_f32(num, den).abs();
+    g >= 16384.0
+}
+
+/// Is `start..end` a span inside `source` that falls on character boundaries?
+pub fn span_ok(source: &str, start: usize, end: usize) -> bool {
+    start <= end && end <= source.len() && source.is_char_boundary(start) && source.is_char_boundary(end)
+}
+
+/// Lexemes of DESIGN §3 C18 (plus the space, so that both `1pt x` and `1ptx` are formed).
+pub const LEXEMES: [&str; 16] = ["chars", "glue", "(", ")", "[", "]", ",", "=", "\"a\"", "\"", "1pt", "1fil", "-", "#c\n", "x", " "];
+
+/// Pieces of well-formed programs (calls, argument fragments, brackets, comments, white space): most
+/// short concatenations parse, with comments and line breaks in every position `format` has to handle.
+pub const PROGRAM_PIECES: [&str; 20] = [
+    "chars(\"ab\")", "chars(\"a\", font=1)", "glue(1pt, 2fil, 3pt)", "glue(", "width=1pt", "1pt", ",", ")", "hbox(content=[", "])", "]", "#c\n", "\n", " ", "kern(-.5pt)", "penalty(1,)", "vbox(", "content=[",
+    "disc(pre_break=[", "rule(\"running\"",
+];
+
+/// Pieces for the inside of a string literal: the escape machine of the lexer.
+pub const STRING_PIECES: [&str; 15] = ["\\", "\"", "u", "{", "}", "\\u{", "F", "FFFFFFFF", "0", "n", "q", "é", "110000", "D800", " "];
+
+/// Number lexemes: sign x integer part x fraction x unit.
+pub fn number_lexemes() -> Vec<String> {
+    let signs = ["", "-"];
+    let ints = ["", "0", "1", "16383", "16384", "32767", "32768", "2147483647", "2147483648", "4294967296", "99999999999999999999"];
+    let fracs = ["", ".", ".5", ".99999", ".999999999999999999", ".5.5"];
+    let units = ["", "pt", "sp", "in", "em", "fil", "filll", "fillll", "xx", "truept"];
+    let mut out = vec![];
+    for s in signs {
+        for i in ints {
+            for f in fracs {
+                for u in units {
+                    let t = format!("{s}{i}{f}{u}");
+                    if !t.is_empty() {
+                        out.push(t);
+                    }
+                }
+            }
+        }
+    }
+    out.sort();
+    out.dedup();
+    out
+}
+
+/// The functions of the language with their parameter names (lang/mod.rs documentation table).
+pub const FUNCTIONS: [(&str, &[&str]); 13] = [
+    ("chars", &["content", "font"]),
+    ("glue", &["width", "stretch", "shrink"]),
+    ("penalty", &["value"]),
+    ("kern", &["width"]),
+    ("hbox", &["height", "width", "depth", "shift_amount", "glue_ratio", "glue_order", "content"]),
+    ("lig", &["char", "original_chars", "font", "includes_left_boundary", "includes_right_boundary"]),
+    ("vbox", &["height", "width", "depth", "shift_amount", "content"]),
+    ("disc", &["pre_break", "post_break", "replace_count"]),
+    ("rule", &["height", "width", "depth"]),
+    ("mark", &[]),
+    ("adjust", &["content"]),
+    ("insertion", &["box_number", "height", "split_max_depth", "split_top_skip_width", "split_top_skip_stretch", "split_top_skip_shrink", "float_penalty", "vbox"]),
+    ("math", &["kind"]),
+];
+
+/// One value of every type (and some near misses) for the argument-type matrix.
+pub const ARG_VALUES: [&str; 30] = [
+    "", "1", "-1", "256", "1pt", "-0.5pt", "1fil", "2filll", "\"a\"", "\"ab\"", "\"\"", "\"true\"", "\"false\"", "\"running\"", "\"normal\"", "\"fill\"", "\"1.5\"", "\"-0.25\"", "\"16383.99998\"", "\"16384.0\"",
+    "\"20000.0\"", "\"1e5\"", "\"nan\"", "\"before\"", "\"after\"", "[]", "[chars(\"a\")]", "[glue()]", "[penalty(1) kern(1pt)]", "x",
+];
